@@ -4834,6 +4834,15 @@ impl<'a, 'graph> Builder<'a, 'graph> {
           match result {
             Ok(response) => {
               self.check_specifier(&requested_specifier, response.specifier());
+              if matches!(response, PendingInfoResponse::Redirect { .. })
+                && requested_specifier == *response.specifier()
+              {
+                // A redirect to itself: no redirect gets recorded, so the
+                // in-flight marker is still there and would make the
+                // follow-up load a no-op. Remove it so the load happens and
+                // the chain ends at the redirect limit like any other loop.
+                self.graph.module_slots.remove(&requested_specifier);
+              }
 
               self.visit(
                 response,
